@@ -18,3 +18,5 @@ pub use async_read::CopyReader;
 pub use output_bytes::output_bytes;
 
 pub mod constant_declarations;
+#[cfg(xet_verif)]
+pub mod verif_hooks;
